@@ -928,7 +928,7 @@ class Curve(SplineGeometry):
 
     def reverse(self):
         """ Reverses the curve """
-        self._control_points = list(reversed(self._control_points))
+        self.set_ctrlpts(list(reversed(self._control_points)))
         max_k = self.knotvector[-1]
         new_kv = [max_k - k for k in self.knotvector]
         self._knot_vector[0] = list(reversed(new_kv))
